@@ -677,5 +677,39 @@ pub fn run_matrix(cases_path: &str, out_path: &str) {
 			Err(m) => out.event("Call", &case, args, "Panic", &m, json!({})),
 		}
 	}
+	// the texts of errors that echo caller input: invalid strings of every length 0..300 with a 2-, 3- or 4-octet character at
+	// the end (so that it sits at and across every byte offset), rendered with Display and Debug
+	{
+		let (mut tried, mut panics) = (0u64, 0u64);
+		let mut first: Option<String> = None;
+		for k in 0..300usize {
+			for tail in ["\u{e9}", "\u{20ac}", "\u{1f600}", "\u{e9}\u{e9}\u{e9}"] {
+				let s = format!("{}{}", "a".repeat(k), tail);
+				let errs: Vec<Option<Error>> = vec![
+					rcgen::string::PrintableString::try_from(s.clone()).err(),
+					rcgen::string::Ia5String::try_from(s.clone()).err(),
+					rcgen::string::TeletexString::try_from(s.clone()).err(),
+					rcgen::string::BmpString::try_from(s.clone()).err(),
+					{
+						let mut p = CertificateParams::default();
+						p.crl_distribution_points = vec![CrlDistributionPoint { uris: vec![s.clone()] }];
+						p.self_signed(&key.kp).err()
+					},
+					CertificateParams::new(vec![s.clone()]).err(),
+				];
+				for e in errs.into_iter().flatten() {
+					tried += 1;
+					if let Err(m) = guarded_any(|| format!("{} {:?}", e, e).len()) {
+						panics += 1;
+						first.get_or_insert(format!("k={} tail={:?}: {}", k, tail, m));
+					}
+				}
+			}
+		}
+		if let Some(m) = &first {
+			out.event("Call", "error-text-panic", json!({"fn": "Display/Debug of Error", "class": "invalid-string-of-every-length"}), "Panic", m, json!({}));
+		}
+		out.event("Sweep", "sweep/error-text", json!({"fn": "Display/Debug of Error", "class": "invalid-string-of-every-length"}), "Ok", "", json!({"tried": tried, "ok": tried - panics, "err": 0, "panics": panics, "timeouts": 0}));
+	}
 	out.finish();
 }
